@@ -17,7 +17,7 @@ structure UInstr where
   inp : List Atom
   out : Option String
   comm : Bool := false
-  deriving Repr, Inhabited
+  deriving DecidableEq, Repr, Inhabited
 
 structure Spec where
   src : List String
